@@ -11,11 +11,13 @@
   * THE STATEMENT `PrintSchemaTextParsesStatement`: the printed text of a schema in printing order that satisfies
     `printTextWF` is accepted by lexer and parser and parses to the denoted tree;  the composition with
     `print_build_roundtrip` is `TextRoundtrip`.
-  Proved so far: LAYER (i) — schemas without printed descriptions and without default values
-  (`print_schema_text_parses_partial`, `text_roundtrip_partial`).  The statement is evaluated by the driver on every
-  generated schema that satisfies `printTextWF` (op `printT`).
+  PROVED: the statement in full (`print_schema_text_parses`: all six kinds of types, arguments in both layouts of
+  `print_arguments`, descriptions in every position and in the three layouts of `print_description`, default values,
+  `@deprecated`, directive definitions, the `schema` block, every indentation over {space, tab}) and its composition
+  `text_roundtrip`.  The statement is also evaluated by the driver on every generated schema that satisfies `printTextWF`
+  (op `printT`).
 -/
-import PyGqlModel.Lemmas.SdlTextLayer1
+import PyGqlModel.Lemmas.SdlTextFull
 import PyGqlModel.Props.C12_print_build
 import PyGqlModel.Props.C12_examples
 namespace PyGql.Props.C12
@@ -39,15 +41,10 @@ def PrintSchemaTextParsesStatement : Prop :=
 def TextRoundtrip (o : SdlPrintT.OptsT) (s : SchemaD) : Prop :=
   ∃ (d : Document) (doc : Doc), parseSdlTextT (SdlPrintT.printSchemaT o s) = some d ∧ docToAst doc = some d ∧ build doc = .ok s
 
-/-- `print_schema_text_parses_partial` — LAYER (i) of the statement: schemas in which no description is printed and no
-    argument / input field has a default value (all six kinds of types, fields with arguments, `implements`, unions, enums,
-    input objects, `@deprecated` with and without reason, directive definitions, the `schema` block), every indentation string
-    over {space, tab}.  MISSING for `PrintSchemaTextParsesStatement`: printed descriptions (the three layouts of
-    `print_description`, the one-argument-per-line layout of `print_arguments`) and default values (`litText`). -/
-theorem print_schema_text_parses_partial (o : SdlPrintT.OptsT) (s : SchemaD) (hs : InPrintOrder s)
-    (hwf : printTextWF o s = true) (hp : NoDescNoDefault s) :
-    parseSdlTextT (SdlPrintT.printSchemaT o s) = docToAst (schemaToDoc s) :=
-  parse_printSchemaT_layer1 o s hs hwf hp
+/-- `print_schema_text_parses` — THE STATEMENT, in full (layers (i) no descriptions / defaults, (ii) descriptions, (iii) default
+    values) -/
+theorem print_schema_text_parses : PrintSchemaTextParsesStatement :=
+  fun o s hs hwf => parse_printSchemaT_full o s hs hwf
 
 /-- `text_roundtrip_of_parses` — COMPOSITION with sch2's `print_build_roundtrip`: the statement for `s` gives the text-level
     round trip for `s` -/
@@ -57,10 +54,12 @@ theorem text_roundtrip_of_parses (o : SdlPrintT.OptsT) (s : SchemaD)
   have hd := docToAst_schemaToDoc s
   exact ⟨_, schemaToDoc s, by rw [hp, hd], hd, print_build_roundtrip s hwf⟩
 
-/-- `text_roundtrip_partial` — LAYER (i), composed: `build (parse (to_string s)) = s` at text level -/
-theorem text_roundtrip_partial (o : SdlPrintT.OptsT) (s : SchemaD) (hs : InPrintOrder s) (hwf : printTextWF o s = true)
-    (hp : NoDescNoDefault s) (hb : printBuildWF s = true) : TextRoundtrip o s :=
-  text_roundtrip_of_parses o s (print_schema_text_parses_partial o s hs hwf hp) hb
+/-- `text_roundtrip` — `build (parse (to_string s)) = s` at TEXT level: for a schema in printing order that satisfies the
+    lexical predicate `printTextWF` and sch2's `printBuildWF`, the printed text is accepted by lexer and parser and the
+    document it parses to builds to the schema -/
+theorem text_roundtrip (o : SdlPrintT.OptsT) (s : SchemaD) (hs : InPrintOrder s) (hwf : printTextWF o s = true)
+    (hb : printBuildWF s = true) : TextRoundtrip o s :=
+  text_roundtrip_of_parses o s (print_schema_text_parses o s hs hwf) hb
 
 /-! ### non-vacuity -/
 
@@ -83,13 +82,26 @@ def plainShop : SchemaD :=
     directives := [{ name := "tag", locations := ["FIELD", "QUERY"], args := [{ name := "name", type := .named "String" }] }],
     query := some "Root" }
 
-example : TextRoundtrip {} plainShop :=
-  text_roundtrip_partial {} plainShop ⟨by rfl, by rfl⟩ (by decide) (by
-    refine ⟨fun t ht => ?_, fun d hd => ?_⟩
-    · simp only [plainShop, List.mem_cons, List.not_mem_nil, or_false] at ht
-      rcases ht with rfl | rfl | rfl | rfl | rfl | rfl <;>
-        simp [descToDoc, argPlain]
-    · simp only [plainShop, List.mem_cons, List.not_mem_nil, or_false] at hd
-      subst hd; simp [descToDoc, argPlain]) (by decide)
+example : TextRoundtrip {} plainShop := text_roundtrip {} plainShop ⟨by rfl, by rfl⟩ (by decide) (by decide)
+
+/-- `shop` (descriptions on types, enum values, input fields and a directive; default values of every input kind) in
+    printing order -/
+example : TextRoundtrip {} (printOrder shop) :=
+  text_roundtrip {} (printOrder shop) ⟨by rfl, by rfl⟩ (by decide) (by decide)
+
+/-- descriptions in the three layouts of `print_description` (one line; several lines; a first line that starts with white
+    space), a description that ends with a quote, described arguments (one argument per line), tab indentation -/
+def descShop : SchemaD :=
+  { types := [
+      { kind := .object, name := "Query", desc := some "The root.\n\n  indented line\nlast line",
+        fields := [{ name := "a", type := .named "Int", desc := some "  leads with blanks",
+                     args := [{ name := "x", type := .named "Int", desc := some "the \"x\"", hasDefault := true, default := .num 3 },
+                              { name := "y", type := .named "String" }] },
+                   { name := "b", type := .named "String", desc := some "say \"\"\"hi\"\"\" twice\nover" }] }],
+    directives := [{ name := "tag", locations := ["FIELD"], args := [{ name := "n", type := .named "Int", desc := some "how many" }] }],
+    query := some "Query" }
+
+example : TextRoundtrip {} descShop := text_roundtrip {} descShop ⟨by rfl, by rfl⟩ (by decide) (by decide)
+example : TextRoundtrip { indent := [9] } descShop := text_roundtrip _ descShop ⟨by rfl, by rfl⟩ (by decide) (by decide)
 
 end PyGql.Props.C12
